@@ -224,6 +224,31 @@ impl Prop for SoundProp {
             let target = after.solution.routes.iter().find(|rc| rc.route().actor == actor);
             // (conditional marker jobs such as reloads may be dropped again by their feature when the insertion is finalised)
             ensure!(!is_customer(j) || target.is_some_and(|rc| rc.route().tour.jobs().any(|x| x == j)), "insert:placement-not-carried-out", "after applying the quoted insertion the job is not in that tour: {what}");
+            // Reachability of the two legs around the placed activity, decided directly on the matrices. The open known
+            // finding on reachability (legs made adjacent by a removal, stale location of a location-less break) masks
+            // R's reachability rule below; a placement that itself creates an unreachable leg is not that finding.
+            if let (Job::Single(_), Some(rc)) = (j, target) {
+                let tour = &rc.route().tour;
+                let acts: Vec<&Activity> = tour.all_activities().collect();
+                let no_own_location = |a: &Activity| a.job.as_ref().is_some_and(|s| s.places.get(a.place.idx).is_some_and(|p| p.location.is_none()));
+                if tour.total() == r.route().tour.total() + 1 {
+                    if let Some(i) = acts.iter().position(|a| a.retrieve_job().as_ref() == Some(j)) {
+                        let profile = rc.route().actor.vehicle.profile.index;
+                        let codes = rendered.matrices.get(profile).and_then(|m| m.error_codes.as_ref().map(|c| (c, (m.distances.len() as f64).sqrt().round() as usize)));
+                        if let Some((codes, n)) = codes {
+                            stats.class("sound.direct_reachability_checked");
+                            for (a, b) in [(i.wrapping_sub(1), i), (i, i + 1)] {
+                                let (Some(from), Some(to)) = (acts.get(a), acts.get(b)) else { continue };
+                                if no_own_location(from) || no_own_location(to) {
+                                    continue;
+                                }
+                                let (lf, lt) = (from.place.location, to.place.location);
+                                ensure!(codes.get(lf * n + lt).is_none_or(|c| *c <= 0), "insert:unsound:reachability-of-placed-activity", "the evaluator accepted a placement whose own leg {lf}->{lt} is flagged unreachable: {what}\n{}", doc(&rendered));
+                            }
+                        }
+                    }
+                }
+            }
             match check_feasible(&after, &rendered, &what, "C06", stats, false, "insertion") {
                 Ok(_) => {}
                 Err(f) => return Err(Failure::new(f.signature.replace("inv:", "insert:unsound:"), format!("the evaluator accepted a placement that the reference model finds infeasible.\n{}", f.message))),
